@@ -538,7 +538,7 @@ int main(int argc, char** argv) {
   g_cfg.horizon = 20000;
   g_cfg.plain_horizon = 20000000;
   g_cfg.solo_limit = 5000;
-  g_cfg.wall_limit_s = 20;
+  g_cfg.wall_limit_s = 120;
   for (int i = 1; i < argc; i++) {
     auto arg = [&](const char* n) { return !strcmp(argv[i], n) && i + 1 < argc; };
     if (!strcmp(argv[i], "--list")) O.list = 1;
